@@ -17,6 +17,7 @@ package main
 
 import (
 	"encoding/json"
+	"errors"
 	"fmt"
 	"strconv"
 	"strings"
@@ -57,6 +58,34 @@ func rulesEach(rr *catalog.Rules) string {
 			return "EACH-KEY-IS-NOT-THE-RULE-KEY"
 		}
 		return "[" + strings.Join(out, "|") + "]"
+	})
+}
+
+// Each with a callback that returns an error at the first rule whose key (byKey) or value is `at`
+func rulesEachUntil(rr *catalog.Rules, byKey bool, at string) string {
+	return guarded(func() string {
+		var out []string
+		bad := false
+		err := rr.Each(func(k string, v catalog.Rule) error {
+			if k != v.Key {
+				bad = true
+			}
+			out = append(out, rulePairText(k, v.ScalarValue))
+			if (byKey && k == at) || (!byKey && v.ScalarValue == at) {
+				return errStop
+			}
+			return nil
+		})
+		if bad {
+			return "EACH-KEY-IS-NOT-THE-RULE-KEY"
+		}
+		switch {
+		case err == nil:
+			return "full:[" + strings.Join(out, "|") + "]"
+		case errors.Is(err, errStop):
+			return "stop:[" + strings.Join(out, "|") + "]"
+		}
+		return "other-error:" + err.Error()
 	})
 }
 
@@ -159,6 +188,10 @@ func runRulesScript(initArg, script string) string {
 			}))
 		case f[0] == "E" && len(f) == 1:
 			out = append(out, read(rulesEach))
+		case (f[0] == "X" || f[0] == "W") && len(f) == 2:
+			at := string(unhex(f[1]))
+			byKey := f[0] == "X"
+			out = append(out, read(func(rr *catalog.Rules) string { return rulesEachUntil(rr, byKey, at) }))
 		case f[0] == "M" && len(f) == 1:
 			out = append(out, read(rulesMarshal))
 		default:
